@@ -14,7 +14,14 @@ pub fn load_world(wit_path: &str, world: Option<&str>) -> anyhow::Result<(Resolv
     let mut resolve = Resolve::default();
     resolve.all_features = true;
     let (pkg, _files) = resolve.push_path(wit_path)?;
-    let world = resolve.select_world(&[pkg], world)?;
+    let world = match resolve.select_world(&[pkg], world) {
+        Ok(w) => w,
+        // world names that are WIT keywords need the `%` escape in a specifier
+        Err(e) => match world {
+            Some(w) if !w.starts_with('%') => resolve.select_world(&[pkg], Some(&format!("%{w}"))).map_err(|_| e)?,
+            _ => return Err(e),
+        },
+    };
     Ok((resolve, world))
 }
 
@@ -109,6 +116,7 @@ pub fn world_info(resolve: &Resolve, world: WorldId) -> Value {
     }
     let w = &resolve.worlds[world];
     let (mut nif, mut nef, mut nres_exp, mut nres_imp) = (0, 0, 0, 0);
+    let mut sync_funcs = 0;
     let mut kebab_resources = vec![];
     for (exported, items) in [(false, &w.imports), (true, &w.exports)] {
         for (_, item) in items.iter() {
@@ -141,6 +149,8 @@ pub fn world_info(resolve: &Resolve, world: WorldId) -> Value {
                 }
                 if f.kind.is_async() {
                     tags.insert("async-func");
+                } else {
+                    sync_funcs += 1;
                 }
                 for p in &f.params {
                     walk(resolve, &p.ty, &mut tags, &mut seen, false);
@@ -152,7 +162,7 @@ pub fn world_info(resolve: &Resolve, world: WorldId) -> Value {
         }
     }
     json!({"world": w.name, "import_funcs": nif, "export_funcs": nef, "exported_resources": nres_exp, "imported_resources": nres_imp,
-           "kebab_exported_resources": kebab_resources, "tags": tags})
+           "kebab_exported_resources": kebab_resources, "tags": tags, "sync_funcs": sync_funcs})
 }
 
 pub fn string_encoding(s: &str) -> wit_component::StringEncoding {
